@@ -345,6 +345,15 @@ let pend_class k =
   let after = frun flags_tree (finit true) (pre @ [FStop; FDialEnd true]) in
   Printf.printf "late=%d\n" (int_of_nat (fconns (f_log after)) - int_of_nat (fconns (f_log before)))
 
+(* readd2 <api> <reps>: a device is added and connects; RemoveDevice begins and waits in Stop (the reader holds its
+   CloseConnectionResponse back); AddDevice / UpdateDevice / a command for the same name arrives; then the reader answers.
+   The tree's model (Driver/RegistrySplit.v, split = false), the caller placed before and after the end of the removal *)
+let readd2_class () =
+  let a = [SE (RCheck O); SE (REnter O); SRemoveLookup; SE (RCheck (S O)); SRemoveStopDone; SE (REnter (S O)); SE (RExit O)] in
+  let b = [SE (RCheck O); SE (REnter O); SRemoveLookup; SRemoveStopDone; SE (RExit O); SE (RCheck (S O)); SE (REnter (S O))] in
+  let show evs = let s = sbase (srun false evs) in Printf.sprintf "managed=%s live=%d" (b01 (managed s)) (int_of_nat (supervisors s)) in
+  if show a = show b then print_endline (show a) else print_endline ("!orders-differ " ^ show a ^ " / " ^ show b)
+
 let () =
   try
     while true do
@@ -357,6 +366,7 @@ let () =
        | ["start"; up0; phases] -> (try start_class (up0 = "1") phases with Failure m -> print_endline ("error: " ^ m))
        | ["race"; n; _] -> race_class (int_of_string n)
        | ["readd"; _; _] -> readd_class ()
+       | ["readd2"; _; _] -> readd2_class ()
        | "reg" :: v :: toks ->
          (try let (s, m) = reg_run (rflags_of v) (List.map rev_of_tok toks) in
             Printf.printf "managed=%s live=%d maxlive=%d created=%d\n" (b01 (managed s)) (int_of_nat (supervisors s)) m (int_of_nat (next s))
